@@ -281,6 +281,29 @@ mutant('C19', 'ws-ports-announced', 'frappy/protocol/discovery.py',
 mutant('C19', 'budget-counts-characters', 'frappy/protocol/discovery.py',
        "        }, ensure_ascii=False, separators=(',', ':')).encode('utf-8')",
        "        }, ensure_ascii=False, separators=(',', ':')).encode('utf-8') if port != 2**16-1 else json.dumps({'SECoP': 'node', 'port': port, 'equipment_id': self.equipment_id, 'firmware': self.firmware, 'description': self.description}, ensure_ascii=False, separators=(',', ':')).encode('utf-16')[::2]")
+# ---------------------------------------------------------------- C20
+mutant('C20', 'level-filter-strict', 'frappy/logging.py',
+       "            if record.levelno >= lev:", "            if record.levelno > lev:")
+mutant('C20', 'idn-keeps-log-levels', 'frappy/protocol/dispatcher.py',
+       "        self.set_all_log_levels(conn, 'off')\n        self._active_connections.discard(conn)",
+       "        self._active_connections.discard(conn)")
+mutant('C20', 'subscriptions-per-handler-not-per-module', 'frappy/logging.py',
+       "        subscriptions = self.subscriptions.setdefault(modname, {})",
+       "        subscriptions = self.subscriptions.setdefault('all', {})\n        self.subscriptions[modname] = subscriptions")
+mutant('C20', 'rotation-removes-newest', 'frappy/logging.py',
+       "            for filepath in files[:-self.max_days]:", "            for filepath in files[-self.max_days:]:")
+mutant('C20', 'rotation-off-by-one', 'frappy/logging.py',
+       "            for filepath in files[:-self.max_days]:", "            for filepath in files[:-self.max_days + 1 or None]:")
+mutant('C20', 'rotation-takes-foreign-files', 'frappy/logging.py',
+       "                               if entry.name.startswith(prefix) and entry.name.endswith('.log')\n                               and entry.is_file(follow_symlinks=False))",
+       "                               if entry.name != 'current' and entry.is_file(follow_symlinks=False))")
+mutant('C20', 'dot-sets-only-first-module', 'frappy/protocol/dispatcher.py',
+       "        for modobj in self.secnode.modules.values():\n            modobj.setRemoteLogging(conn, level, self.send_log_msg)",
+       "        for modobj in list(self.secnode.modules.values())[:1]:\n            modobj.setRemoteLogging(conn, level, self.send_log_msg)")
+mutant('C20', 'numeric-levels-refused', 'frappy/logging.py',
+       "        if level in LEVEL_NAMES:\n            return level", "        if False:\n            return level")
+mutant('C20', 'log-label-is-level-number', 'frappy/logging.py',
+       "                    conn, modname, LEVEL_NAMES[record.levelno],", "                    conn, modname, str(record.levelno),")
 
 
 def run_mutant(prop, name, file, old, new, runs, extra):
